@@ -21,7 +21,7 @@ BOUNDS = dict(
                     "from the mesh (symbolic selection: covers orderings, removals, duplications at once); (c) a seeded base ordering with one symbolic "
                     "edit: swap of two positions, removal of one position, duplication of one entry at any position, replacement of one entry by any mesh point",
                perturbation=f"every coordinate = double(m/N) + delta, delta symbolic in [-{DELTA},{DELTA}]"),
-    thorough=dict(mesh="as quick plus N x1x1 (N in 7..100 incl. 97, 99, 100) and <=36 points; <=5 points (selections); <=6 points (all orderings)",
+    thorough=dict(mesh="as quick plus N x1x1 / 1xNx1 / 1x1xN for N in 7,8,9,12,16,25,50,97,100 (seeded order; one symbolic removal for N<=25 and N=100) and <=36 points; <=5 points (selections); <=6 points (all orderings)",
                   list="as quick", perturbation="as quick"))
 EXPLANATION = ("The real get_mp_grid / grid_from_kpoints / is_round run on a list of k-points whose composition and order are finite-choice symbolic values "
                "(z3 integers: permutation, selection with repetition, or one symbolic edit of a base ordering) and whose coordinates carry a symbolic "
@@ -238,7 +238,7 @@ def build_list(model, mesh, seed, L=None, base="shuffled", first=None):
         return (lambda: [int(x.concretize()) for x in lst]), ass
     if model == "select":
         ch = [sym_choice(f"s{j}", list(range(nk))) for j in range(L)]
-        return (lambda: [int(c[0].concretize()) for c in ch]), sum((c[1] for c in ch), [])
+        return (lambda: [int(c[0].concretize()) for c in ch]), sum((c[1] for c in ch), []) + ([ch[0][2] == first] if first is not None else [])
     b = base_order(mesh, seed, base)
     n = len(b)
     if model == "fixed":
@@ -403,9 +403,9 @@ def case_group(rec, jobs, seed):
 def _weight(j):
     nk = int(np.prod(j["mesh"]))
     mo = j["model"]
-    p = {"perm": math.factorial(nk) // (nk if j.get("first") is not None else 1), "select": nk ** (j.get("L") or 0), "drop": nk,
+    p = {"perm": math.factorial(nk) // (nk if j.get("first") is not None else 1), "select": nk ** (j.get("L") or 0) // (nk if j.get("first") is not None else 1), "drop": nk,
          "dup": nk * (nk + 1), "repl": nk * nk, "swap": nk * (nk - 1) // 2, "fixed": 1}[mo]
-    return p * (4 + nk)
+    return p * (10 + nk)
 
 
 def jobs_for(tier):
@@ -433,9 +433,15 @@ def jobs_for(tier):
             for L in range(max(1, nk - 1), nk + 2):
                 if q and nk == 4 and (L > nk or (mesh != (2, 2, 1) and (L < nk or grid != "mesh" or fn == "get_mp_grid" or mesh not in [(1, 1, 4), (1, 2, 2)]))):
                     continue
-                if nk == 5 and (L != nk or not rep(mesh)):
+                if nk == 5 and (L != nk or not rep(mesh) or grid is None):
                     continue
-                add(fn, grid, mesh, "select", L=L)
+                if not q and nk == 4 and L > nk and not rep(mesh):
+                    continue
+                if nk ** L > 600:                      # split by the first entry so that the pieces can run in parallel
+                    for f in range(nk):
+                        add(fn, grid, mesh, "select", L=L, first=f)
+                else:
+                    add(fn, grid, mesh, "select", L=L)
     # (c) one symbolic edit of a base ordering
     for mesh in all_meshes(24 if q else 36):
         nk = int(np.prod(mesh))
@@ -444,9 +450,9 @@ def jobs_for(tier):
             continue
         for fn, grid in fns:
             add(fn, grid, mesh, "drop")
-            if small or nk <= (9 if q else 18):
+            if small or nk <= (9 if q else 12):
                 add(fn, grid, mesh, "repl")
-            if small or nk <= (8 if q else 12):
+            if small or nk <= (8 if q else 9):
                 add(fn, grid, mesh, "dup")
                 add(fn, grid, mesh, "swap", base="reversed")
     # sub-grid selection: a finer mesh is given, the coarser grid is requested
@@ -454,20 +460,20 @@ def jobs_for(tier):
         add("grid_from_kpoints", grid, mesh, "perm" if np.prod(mesh) <= 4 else "repl")
         add("grid_from_kpoints", grid, mesh, "drop")
     if not q:
-        for N in (7, 8, 9, 11, 13, 16, 25, 32, 49, 64, 81, 97, 99, 100):
+        for N in (7, 8, 9, 12, 16, 25, 50, 97, 100):
             for ax in range(3):
                 mesh = tuple(N if a == ax else 1 for a in range(3))
                 for fn, grid in fns:
-                    if N <= 32 or ax == 0:
-                        add(fn, grid, mesh, "drop")
                     add(fn, grid, mesh, "fixed")
+                    if ax == 0 and (N <= 25 or (N == 100 and grid == "mesh")):
+                        add(fn, grid, mesh, "drop")
     return out
 
 
 def cases(tier, seed):
     out = [Case("stub validation", case_stub_validation, dict(seed=seed))]
     jobs = sorted(jobs_for(tier), key=_weight, reverse=True)
-    ngroups = 30 if tier == "quick" else 96
+    ngroups = 36 if tier == "quick" else 96
     groups = [[0, []] for _ in range(ngroups)]
     for j in jobs:                                   # greedy balancing by estimated cost
         g = min(groups, key=lambda g: g[0])
